@@ -24,6 +24,8 @@ pub enum Shape {
     PlainKey,
     /// value without drop glue, key tracked
     PlainVal,
+    /// neither key nor value has drop glue: `needs_drop::<(K, V)>()` is false
+    PlainBoth,
 }
 
 
@@ -272,6 +274,11 @@ pub enum Op {
     FromArr { t: T, items: Vec<u32> },
     Entry { t: T, c: u32, act: EntryAct },
     Disjoint { t: T, cs: Vec<u32>, f: Form },
+    /// `get_disjoint_unchecked_mut`, executed only when its contract holds (pairwise different keys)
+    DisjointUnchecked { t: T, cs: Vec<u32>, f: Form },
+    /// `Default::default()` of an iterator type: 0 Iter, 1 IterMut, 2 IntoIter, 3 Keys, 4 IntoKeys, 5 Values,
+    /// 6 ValuesMut, 7 IntoValues; polled, formatted and dropped
+    DefaultIter { t: T, which: u8 },
     // ---- Set
     SInsert { t: T, c: u32 },
     SReplace { t: T, c: u32 },
@@ -292,22 +299,29 @@ pub enum Op {
     SAlg { a: T, b: T, kind: AlgKind, how: AlgUse },
     SRel { a: T, b: T, kind: RelKind },
     SSub { a: T, b: T },
+    /// `Set<&K, _>::difference_ref` over sets of references to the elements of sets `a` and `b`
+    SDiffRef { a: T, b: T, how: AlgUse },
+    /// `Extend<&T>` (for `T: Copy`): a set of plain `Copy` keys seeded with the classes of set `t`, extended by reference
+    SExtendRef { t: T, items: Vec<u32>, src: SrcCfg },
     // ---- formatting, serde
     Fmt { t: T, set: bool, style: Style, sink: SinkCfg, #[serde(default)] spec: u8 },
     /// Debug of a consuming iterator / drain after `take` items
     FmtIter { t: T, which: u8, take: u8, alt: bool, sink: SinkCfg, #[serde(default)] spec: u8 },
     Serde { t: T, set: bool, cfg: SerdeCfg },
+    /// large-capacity configuration (C06): a `Map<u32, u64, 256>` filled with `fill` entries; `sel` picks how many keys `get_disjoint_mut` is given at once (3 ... 256)
+    BigDisjoint { fill: u16, sel: u8 },
     // ---- resource / placement
     /// insert fresh keys until full
     Fill { t: T, set: bool },
     /// add a key that is absent, through the given entry point
-    Overflow { t: T, via: Via },
+    /// `hint`: size_hint behaviour of the source for the bulk entry points (see `SrcCfg::hint`)
+    Overflow { t: T, via: Via, #[serde(default)] hint: u8 },
     /// move the container value to a different address
     Relocate { t: T, set: bool },
     /// the deprecated `with_capacity(c)` constructor
     WithCap { t: T, c: u32 },
     /// drop and re-create the container
-    DropNew { t: T, set: bool },
+    DropNew { t: T, set: bool, #[serde(default)] dflt: bool },
 }
 
 #[derive(Clone, Debug, Serialize, Deserialize, PartialEq, Eq)]
@@ -348,6 +362,3 @@ pub struct Replay {
     pub original_faults: usize,
 }
 
-/// The menu of (N, M) capacity pairs the executor is monomorphised for.
-pub const CAP_PAIRS: [(usize, usize); 12] =
-    [(0, 0), (0, 2), (1, 1), (1, 3), (2, 2), (2, 1), (3, 3), (3, 5), (5, 3), (8, 8), (16, 16), (16, 4)];
